@@ -390,6 +390,25 @@ static void run_case(char** tok, int ntok)
       } else {
         bprintf(&ob, "na");
       }
+      // next must compare equal to an iterator obtained independently at the same position
+      if (st == ZIX_STATUS_SUCCESS) {
+        const long   ncmp = cmplog.n;
+        const uint64_t hh = cmplog.h;
+        const size_t  ll = cmplog.len;
+        ZixBTreeIter other = zix_btree_end(t);
+        if (!zix_btree_iter_is_end(next)) {
+          zix_btree_find(t, zix_btree_get(next), &other);
+        }
+        bprintf(&ob, " q%d", zix_btree_iter_equals(next, other) && zix_btree_iter_equals(other, next) ? 1 : 0);
+        cmplog.n = ncmp; // the extra find is not part of the removal's comparator log
+        cmplog.h = hh;
+        cmplog.len = ll;
+        if (cmplog.buf) {
+          cmplog.buf[ll] = 0;
+        }
+      } else {
+        bprintf(&ob, " qna");
+      }
       bprintf(&ob, " ");
       put_iter(&sb, next);
       bprintf(&sb, "/%ld.%s ", cmplog.n, seq_str(&cmplog, tmp));
